@@ -190,3 +190,63 @@ def _pooltimeout_sync(T: typing.Any) -> None:
     o3 = su.api.request(su.pool, "GET", su.url("c"), extensions={"timeout": {"pool": 0}})
     P.cover("served-in-time")
     P.check(o3.ok, "zero-timeout-succeeds-without-waiting", lambda: f"pooltimeout-sync:zero:{o3.kind()}")
+
+
+@harness(
+    "C16", "pooltimeout_requeue",
+    quick=[{"lib": "asyncio"}, {"lib": "trio"}],
+    example=dict(T=7, H=4),
+    require=("timed-out", "served-in-time", "requeued"),
+    timeout={"quick": 120, "thorough": 300},
+    symbolic="pool timeout T of the third caller and the time H each exchange keeps the only connection busy (integers up to 10^9)",
+    bounds="max_connections=1, three callers to one origin: when the first response is closed the freed connection is offered to both waiters, the loser is re-queued (ConnectionNotAvailable) and goes on waiting",
+    outside="more than one re-queue; fractional time values",
+    stubs=("virtual clock (verif.vrt); server output becomes readable H ticks after the request was written",),
+)
+def pooltimeout_requeue(T: int, H: int) -> None:
+    """
+    pre: 1 <= H <= 10**9 and 0 <= T <= 3 * 10**9
+    post: _
+    """
+    from .. import rt
+
+    if T == H or T == 2 * H:
+        return  # ties may go either way
+    rt.set_async_lib(shard("lib", "asyncio"))
+    try:
+        su = Setup("h11", True, max_connections=1, clock=100, delay=H)
+        out: dict[str, typing.Any] = {}
+
+        async def plain(name: str) -> None:
+            r = await su.pool.request("GET", su.url(name))
+            out[name] = r.status
+
+        async def c() -> None:
+            try:
+                r = await su.pool.request("GET", su.url("c"), extensions={"timeout": {"pool": T}})
+                out["c"] = r.status
+                out["c_at"] = vrt.RT.clock
+            except httpcore.PoolTimeout:
+                out["c"] = "PoolTimeout"
+                out["c_at"] = vrt.RT.clock
+
+        vrt.RT.spawn("a", plain("a"))
+        vrt.RT.spawn("b", plain("b"))
+        vrt.RT.spawn("c", c())
+        vrt.RT.run()
+        P.check(not vrt.RT.deadlocked, "no-deadlock", lambda: f"deadlock {vrt.RT.deadlocked}")
+        P.check(out.get("a") == 200 and out.get("b") == 200, "others-complete", "pooltimeout-requeue:others")
+        P.check(vrt.RT.task("c").exc is None, "waiter-outcome-documented", lambda: f"c raised {vrt.RT.task('c').exc!r}")
+        if T > 2 * H:
+            P.cover("served-in-time")
+            P.check(out.get("c") == 200, "served-when-freed-before-deadline", "pooltimeout-requeue:early")
+        else:
+            P.cover("timed-out")
+            if T > H:
+                P.cover("requeued")  # it was offered the connection at H, lost it, and waits on
+            P.check(out.get("c") == "PoolTimeout", "pool-timeout-raised", "pooltimeout-requeue:missing")
+            if out.get("c") == "PoolTimeout":
+                P.check(out["c_at"] == 100 + T, "raised-at-the-deadline", "pooltimeout-requeue:wrong-instant")
+        P.check(scen.n_requests(su.pool) == 0, "queue-empty-at-end", "pooltimeout-requeue:queue-not-empty")
+    finally:
+        rt.set_async_lib("asyncio")
